@@ -33,6 +33,7 @@ type plan struct {
 	steps  []step
 	target string // the model condition the corruption aims at ("" for honest)
 	fork   int
+	tag    string // optional scenario class, counted in the evidence
 }
 
 type prng struct{ s uint64 }
